@@ -3,6 +3,7 @@ package rules
 import (
 	"go/types"
 	"strings"
+	"sync"
 
 	"golang.org/x/tools/go/ssa"
 
@@ -11,14 +12,17 @@ import (
 
 // Roles are the role-resolved anchors shared by several properties.
 type Roles struct {
-	RawWord     []*ssa.Function       // module functions touching crypto/rand
+	RawWord     []*ssa.Function                     // module functions touching crypto/rand
 	RandRefs    map[*ssa.Function][]ssa.Instruction // instructions referencing crypto/rand, per function
-	BoundedDraw []*ssa.Function       // module functions calling a raw-word function
-	DrawSites   []*ssa.Call           // calls of bounded-draw functions (outside bounded-draw functions)
-	RawCalls    map[*ssa.Function][]*ssa.Call // calls of raw-word functions, per caller
+	BoundedDraw []*ssa.Function                     // module functions calling a raw-word function
+	DrawSites   []*ssa.Call                         // calls of bounded-draw functions (outside bounded-draw functions)
+	RawCalls    map[*ssa.Function][]*ssa.Call       // calls of raw-word functions, per caller
 }
 
-var rolesCache = map[*core.Program]*Roles{}
+var (
+	rolesCache = map[*core.Program]*Roles{}
+	rolesMu    sync.Mutex
+)
 
 // refsPackage reports whether instruction in references an object of package path.
 func refsPackage(in ssa.Instruction, path string) bool {
@@ -55,8 +59,11 @@ func refsPackage(in ssa.Instruction, path string) bool {
 
 // GetRoles resolves the randomness roles of the program.
 func GetRoles(p *core.Program) *Roles {
-	if r, ok := rolesCache[p]; ok {
-		return r
+	rolesMu.Lock()
+	r0, ok := rolesCache[p]
+	rolesMu.Unlock()
+	if ok {
+		return r0
 	}
 	r := &Roles{RandRefs: map[*ssa.Function][]ssa.Instruction{}, RawCalls: map[*ssa.Function][]*ssa.Call{}}
 	isRaw := map[*ssa.Function]bool{}
@@ -126,7 +133,9 @@ func GetRoles(p *core.Program) *Roles {
 			}
 		}
 	}
+	rolesMu.Lock()
 	rolesCache[p] = r
+	rolesMu.Unlock()
 	return r
 }
 
